@@ -64,27 +64,44 @@ def add_corners_if_it_is_an_uri(a_candidate_uri):
     return a_candidate_uri
 
 
+def index_of_closing_quotes(a_literal):
+    """
+    Index of the quotes closing a literal that starts at a_literal[0]: the first quotes
+    preceded by an even number of backslashes. -1 if there is no such char.
+    """
+    i = 1
+    while i < len(a_literal):
+        if a_literal[i] == "\\":
+            i += 2
+        elif a_literal[i] == '"':
+            return i
+        else:
+            i += 1
+    return -1
+
+
 def decide_literal_type(a_literal, base_namespace=None):
-    if there_is_arroba_after_last_quotes(a_literal):
-        return LANG_STRING_TYPE
-    elif "\"^^" not in a_literal:
+    if not a_literal.startswith('"'):  # unquoted content: there is no @lang nor ^^type to look for
         return STRING_TYPE
-    elif "xsd:" in a_literal:
-        return XSD_NAMESPACE + a_literal[a_literal.find("xsd:") + 4:]
-    elif "rdf:" in a_literal:
-        return RDF_SYNTAX_NAMESPACE + a_literal[a_literal.find("rdf:")+ 4:]
-    elif "dt:" in a_literal:
-        return DT_NAMESPACE + a_literal[a_literal.find("dt:")+ 3:]
-    elif "geo:" in a_literal:
-        return OPENGIS_NAMESPACE + a_literal[a_literal.find("geo:") + 4:]
-    elif XSD_NAMESPACE in a_literal or RDF_SYNTAX_NAMESPACE in a_literal \
-            or DT_NAMESPACE in a_literal or OPENGIS_NAMESPACE in a_literal:
-        return a_literal[a_literal.find("\"^^")+4:-1]
-    elif a_literal.strip().endswith(">"):
-        candidate_type = a_literal[a_literal.find("\"^^") + 4:-1]  # plain uri, no corners
+    suffix = a_literal[index_of_closing_quotes(a_literal) + 1:].strip()  # just the @lang or ^^type part
+    if suffix.startswith("@"):
+        return LANG_STRING_TYPE
+    elif not suffix.startswith("^^"):
+        return STRING_TYPE
+    str_type = suffix[2:]
+    if str_type.startswith("<") and str_type.endswith(">"):
+        candidate_type = str_type[1:-1]  # plain uri, no corners
         if base_namespace is not None and not candidate_type.startswith("http"):
             return base_namespace + candidate_type
         return candidate_type
+    elif str_type.startswith("xsd:"):
+        return XSD_NAMESPACE + str_type[4:]
+    elif str_type.startswith("rdf:"):
+        return RDF_SYNTAX_NAMESPACE + str_type[4:]
+    elif str_type.startswith("dt:"):
+        return DT_NAMESPACE + str_type[3:]
+    elif str_type.startswith("geo:"):
+        return OPENGIS_NAMESPACE + str_type[4:]
     else:
         raise RuntimeError("Unrecognized literal type:" + a_literal)
 
@@ -105,13 +122,13 @@ def is_a_correct_uri(target_uri, prefix_namespace_dict):
 
 
 def there_is_arroba_after_last_quotes(target_str):
-    if target_str.rfind(STARTING_CHAR_FOR_SHAPE_NAME) > target_str.rfind('"'):
+    if target_str.rfind("@") > target_str.rfind('"'):
         return True
     return False
 
 
 def parse_literal(an_elem, base_namespace=None):
-    content = an_elem[1:an_elem.find('"', 1)]
+    content = an_elem[1:index_of_closing_quotes(an_elem)]
     elem_type = decide_literal_type(a_literal=an_elem,
                                     base_namespace=base_namespace)
     return content, elem_type
